@@ -598,7 +598,18 @@ func (h *handler) resetStream(rpc *goatorepo.Rpc) error {
 		reset.Header.ProxyNext = rpc.Header.ProxyRecord[0 : len(rpc.Header.ProxyRecord)-1]
 	}
 
-	return h.rw.Write(h.ctx, reset)
+	// Hand the reset to the writer goroutine instead of writing it here: the
+	// read loop must not block on the transport's write side (a peer that is
+	// itself blocked writing to us would deadlock the connection), and going
+	// through the same queue keeps the reset behind a trailer the writer has
+	// already dequeued for this stream.
+	go func() {
+		select {
+		case h.writeChan <- reset:
+		case <-h.ctx.Done():
+		}
+	}()
+	return nil
 }
 
 // contextFromHeaders returns a new incoming context with metadata populated
